@@ -40,13 +40,7 @@ type item struct {
 	FromConfigBlock             bool
 }
 
-func (it item) key(shiftFrom, shift int) string {
-	adj := func(l int) int {
-		if l >= shiftFrom {
-			return l + shift
-		}
-		return l
-	}
+func (it item) key(adj func(int) int) string {
 	var dl []string
 	for _, l := range it.DiagLines {
 		dl = append(dl, fmt.Sprint(adj(l)))
@@ -178,11 +172,33 @@ func body(c *explore.Chooser) *explore.Case {
 		comment = "# pint file/disable " + checkString
 	}
 	out := append([]string(nil), lines...)
-	shiftFrom, shift := 0, 0
-	insert := func(at int, l string) { // at = index in lines; new line becomes lines[at]
-		out = append(out[:at], append([]string{l}, out[at:]...)...)
-		shiftFrom, shift = at+1, 1
+	orig := make([]int, len(lines)) // original 1-based line number of every output line, 0 = inserted
+	for i := range orig {
+		orig[i] = i + 1
 	}
+	// insert before the line that ORIGINALLY had index `at` in lines (robust against earlier insertions)
+	insert := func(at int, l string) {
+		pos := len(out)
+		for i, o := range orig {
+			if o == at+1 {
+				pos = i
+				break
+			}
+		}
+		out = append(out[:pos], append([]string{l}, out[pos:]...)...)
+		orig = append(orig[:pos], append([]int{0}, orig[pos:]...)...)
+	}
+	appendTo := func(at int, suffix string) {
+		for i, o := range orig {
+			if o == at+1 {
+				out[i] += suffix
+			}
+		}
+	}
+	// prelude: an earlier comment that must not interfere with the main one
+	prelude := c.Free(5, "prelude")
+	preludeName := []string{"none", "expired file/snooze of the same check on top", "expired snooze of the same check above the rule", "file/disable of another check on top", "same comment twice"}[prelude]
+	otherReporter := ""
 	var placement string
 	if fileLevel {
 		k := c.Free(4, "file-placement")
@@ -197,8 +213,9 @@ func body(c *explore.Chooser) *explore.Case {
 			insert(starts[1], comment)
 		case 2:
 			out = append(out, comment)
+			orig = append(orig, 0)
 		case 3:
-			out[0] += " " + comment
+			appendTo(0, " "+comment)
 		}
 	} else {
 		k := c.Free(6, "rule-placement")
@@ -207,7 +224,7 @@ func body(c *explore.Chooser) *explore.Case {
 		case 0:
 			insert(starts[ti], "  "+comment)
 		case 1:
-			out[starts[ti]] += " " + comment
+			appendTo(starts[ti], " "+comment)
 		case 2:
 			insert(starts[ti]+2, "    "+comment)
 		case 3:
@@ -215,20 +232,56 @@ func body(c *explore.Chooser) *explore.Case {
 				// directly followed by another rule: YAML does not say whose comment this is
 				return &explore.Case{Skip: true}
 			}
-			insert(ends[ti]+1, "    "+comment)
+			out = append(out, "    "+comment)
+			orig = append(orig, 0)
 		case 4:
-			out[ends[ti]] += " " + comment
+			appendTo(ends[ti], " "+comment)
 		case 5:
 			if ti == 0 {
 				return &explore.Case{Skip: true}
 			}
-			out = append(out[:starts[ti]], append([]string{"", "  " + comment}, out[starts[ti]:]...)...)
-			shiftFrom, shift = starts[ti]+1, 2
+			insert(starts[ti], "")
+			insert(starts[ti], "  "+comment)
 		}
+	}
+	switch prelude {
+	case 1:
+		insert(0, "# pint file/snooze "+past+" "+target.reporter)
+	case 2:
+		insert(starts[ti], "  # pint snooze "+past+" "+target.reporter)
+	case 3:
+		for _, p := range pairs {
+			if p.reporter != target.reporter {
+				otherReporter = p.reporter
+				break
+			}
+		}
+		if otherReporter == "" {
+			return &explore.Case{Skip: true}
+		}
+		insert(0, "# pint file/disable "+otherReporter)
+	case 4:
+		if fileLevel {
+			insert(0, comment)
+		} else {
+			insert(starts[ti], "  "+comment)
+		}
+	}
+	newLine := map[int]int{}
+	for i, o := range orig {
+		if o > 0 {
+			newLine[o] = i + 1
+		}
+	}
+	adj := func(l int) int {
+		if n, ok := newLine[l]; ok {
+			return n
+		}
+		return l
 	}
 	text := strings.Join(out, "\n") + "\n"
 	after, herr := run(e, text)
-	input := map[string]any{"file": text, "target_rule": target.rule, "reporter": target.reporter, "comment": comment, "placement": placement, "locked_config": locked == 1}
+	input := map[string]any{"file": text, "target_rule": target.rule, "reporter": target.reporter, "comment": comment, "placement": placement, "locked_config": locked == 1, "prelude": preludeName}
 	cs := &explore.Case{Input: input, Key: fmt.Sprintf("%d", locked) + text}
 	if herr != "" {
 		cs.Violate("harness:"+herr, herr, input)
@@ -247,15 +300,18 @@ func body(c *explore.Chooser) *explore.Case {
 				drop = true
 			}
 		}
+		if otherReporter != "" && it.Reporter == otherReporter {
+			drop = true // the prelude's own file/disable
+		}
 		if drop {
 			removed++
 			continue
 		}
-		want = append(want, it.key(shiftFrom, shift))
+		want = append(want, it.key(adj))
 	}
 	var got []string
 	for _, it := range after {
-		got = append(got, it.key(0, 0))
+		got = append(got, it.key(func(l int) int { return l }))
 	}
 	sort.Strings(want)
 	sort.Strings(got)
@@ -272,7 +328,7 @@ func body(c *explore.Chooser) *explore.Case {
 		case len(missing) > 0 && len(extra) == 0:
 			kind = "suppressed-too-much"
 		}
-		cs.Violate(fmt.Sprintf("%s form=%s placement=%s locked=%v", kind, forms[form], placement, lockedApplies),
+		cs.Violate(fmt.Sprintf("%s form=%s placement=%s locked=%v prelude=%s", kind, forms[form], placement, lockedApplies, preludeName),
 			fmt.Sprintf("comment %q (%s) on rule %s: problems that should have stayed but are gone: %v; problems that should be gone but are there (or new): %v", comment, placement, target.rule, missing, extra), input)
 	}
 	return cs
@@ -302,7 +358,7 @@ func diff(want, got []string) (missing, extra []string) {
 func main() {
 	explore.Main(&explore.Config{
 		Property: "C07", Level: "exploration",
-		Rule: "all 1- and 2-rule strict files over a 13-rule palette under a config enabling every configurable offline check kind; for every (rule, reporter) pair in the baseline report x 9 comment forms (disable/snooze by name and by check String(), RFC3339 and date timestamps, future/past, file-level variants) x 6 rule placements / 4 file placements x {plain, locked} config: the multiset of (rule, reporter, severity, summary, details, diagnostics, line ranges) after must equal before minus exactly the targeted slice, shifted by the inserted lines. Complete product (no deviation bound).",
+		Rule: "all 1- and 2-rule strict files over a 13-rule palette under a config enabling every configurable offline check kind; for every (rule, reporter) pair in the baseline report x 9 comment forms (disable/snooze by name and by check String(), RFC3339 and date timestamps, future/past, file-level variants) x 6 rule placements / 4 file placements x 5 preludes (none, expired file/snooze or snooze of the same check earlier, file/disable of another check, the comment twice) x {plain, locked} config: the multiset of (rule, reporter, severity, summary, details, diagnostics, line ranges) after must equal before minus exactly the targeted slice, shifted by the inserted lines. Complete product (no deviation bound).",
 		Assumptions: []string{
 			"snooze timestamps are decades away from now, so the wall clock cannot flip a verdict",
 			"'after the last field' is only generated for the last rule of a file: directly followed by another list item YAML does not define whose comment it is",
